@@ -4,6 +4,7 @@
   fail-file replay, output capture, final replay, fuzzing all go through it) or one
   `inner` (Custom function) — both end with `cleanupPhase`.
 -/
+import RapidModel.Generated.CallOrders
 import RapidProofs.Context
 
 namespace Rapid.C10
@@ -48,5 +49,28 @@ theorem panic_does_not_stop_cleanups (e : Err) (rest : List CTree) (fuel : Nat) 
 example : (checkOnce (.ctx (.cleanup (.emit 1 .done) (.cleanup (.emit 2 (.reg (.emit 3 .done) .done)) (Prog.fatal "x" 1))))
     (.buf []) TS.fresh).evs =
     [.ctx 0 true, .signal, .cleanupBegin, .cancel 0, .user 2, .user 3, .user 1, .cleanupEnd] := by decide
+
+/-! ### facts re-read from /repo's source on every run -/
+
+/-- `runProp`: recover is deferred first and `cleanup` second, so cleanups run before the recover;
+    then the property -/
+theorem runProp_order_source :
+    Rapid.Generated.order_runProp = ["if", "defer{panicToError}", "defer t.cleanup", "call prop", "return"] := by decide
+
+/-- `checkOnce`: run the property with its cleanups, then the pending-failure check, then reset -/
+theorem checkOnce_order_source :
+    Rapid.Generated.order_checkOnce = ["if", "call runProp", "if", "call t.resetFailed", "return"] := by decide
+
+/-- `T.cleanup`: the context is cancelled (under the lock) before the pop-and-run loop; the
+    "run the remaining cleanups" handler is deferred before both -/
+theorem cleanup_order_source :
+    Rapid.Generated.order_cleanup = ["call t.cleaning.Store", "defer t.cleaning.Store", "defer{t.mu.Lock}",
+      "call t.mu.Lock", "if", "call t.mu.Unlock", "for"] := by decide
+
+/-- `customGen.maybeValue`: fresh inner T with its parent, deferred cleanup, deferred recover -/
+theorem maybeValue_order_source :
+    Rapid.Generated.order_maybeValue = ["assign", "call newT", "assign", "defer t.cleanup", "defer{recover}", "return"] := by decide
+
+theorem example_order_source : Rapid.Generated.order_example = ["defer t.cleanup", "for"] := by decide
 
 end Rapid.C10
